@@ -1,19 +1,99 @@
 /-
-C16 — property theorems (function items: closures, partial application, HOFs).
+C16 — function items are first-class values: closures, partial application, higher-order
+functions.  Property theorems only; helper lemmas are in EPV/Lemmas/Closures*.lean.
+
+Reading guide
+* `Expr`                 the expression fragment (EPV/Spec/ClosureSem.lean)
+* `specEval fuel p`      the specification: lexical closures, a new function item per evaluation of a
+                         function expression, F&O definitions of the HOFs
+* `implEval cfg fuel p`  the model of the code on a tree described by `cfg`
+                         (`cfg.share`: F16 present — closure stored on the syntax token;
+                          `cfg.leak`: F05 present — calls bind in the caller's variables dict),
+                         returning the result and the trigger flags raised during the run
+* `fuel`                 bound on the nesting depth of the evaluation (the fragment has general
+                         recursion through self-application); every theorem holds for every fuel
 -/
-import EPV.Model.Closures
+import EPV.Lemmas.ClosuresStep
 namespace EPV.C16
 open EPV.Clo
+
+/-! ## closures -/
+
+/-- PARTIAL (findings F16, F05, F16e, F16f, F16m are the five flags): on **every** tree configuration,
+for every program and fuel, a run of the model that raises no trigger flag returns exactly what
+the lexical-closure specification returns.  The full statement `(implEval cfg fuel p).result =
+specEval fuel p` is false when `cfg.share` (see `closure_counterexample`) or `cfg.leak`
+(`leak_counterexample`).  -/
+theorem closure_eq_spec_partial (cfg : Cfg) (fuel : Nat) (p : Expr)
+    (h : (implEval cfg fuel p).flags = Flags.none) :
+    (implEval cfg fuel p).result = specEval fuel p := by
+  have hs := eval_sim cfg fuel p { item := some (.int 1), lex := [], litem := some (.int 1) } []
+    { heap := [], slots := [] } h
+  simp only [eraseCtx, eraseHeap, List.map_nil] at hs
+  show Except.map (fun x => x.1.1)
+    (eval cfg fuel p { item := some (.int 1), lex := [], litem := some (.int 1) } []
+      { heap := [], slots := [] }).2 = _
+  unfold specEval
+  rw [hs]
+  generalize (eval cfg fuel p _ [] _).2 = r
+  cases r <;> rfl
 
 /-- the canonical witness of F16: `(for $i in (1,2) return function(){$i}) ! .()` -/
 def witnessF16 : Expr :=
   .smap (.par (.forE 0 (.par (.cat (.lit 1) (.lit 2))) (.fnE 0 [] (.var 0)))) (.call .dot [])
 
-/-- F16, kernel-checked: on a tree where the closure lives on the syntax token (and F05 is already
-repaired) the program returns `(2,2)`, the specification `(1,2)`; the `stale` trigger is raised. -/
+/-- F16, kernel-checked: on a tree where the closure lives on the syntax token (F05 already
+repaired) the program returns `(2,2)`, the specification `(1,2)`, and the `stale` trigger is
+raised; on the repaired tree the model returns `(1,2)` without any flag. -/
 theorem closure_counterexample :
     (implEval { share := true, leak := false } 20 witnessF16).result = .ok [.int 2, .int 2] ∧
     specEval 20 witnessF16 = .ok [.int 1, .int 2] ∧
-    (implEval { share := true, leak := false } 20 witnessF16).flags.stale = true := by decide
+    (implEval { share := true, leak := false } 20 witnessF16).flags.stale = true ∧
+    implEval Cfg.fixed 20 witnessF16 = { result := .ok [.int 1, .int 2], flags := Flags.none } := by
+  decide
+
+/-- the canonical witness of F05: `let $x := 10 return (function($x){$x+1}(1), $x)` -/
+def witnessF05 : Expr :=
+  .letE 0 (.lit 10) (.cat (.call (.fnE 0 [0] (.add (.var 0) (.lit 1))) [some (.lit 1)]) (.var 0))
+
+/-- F05, kernel-checked: with calls binding in the caller's dict the program returns `(2,1)`
+(specification `(2,10)`) and the `scope` trigger is raised. -/
+theorem leak_counterexample :
+    (implEval { share := false, leak := true } 20 witnessF05).result = .ok [.int 2, .int 1] ∧
+    specEval 20 witnessF05 = .ok [.int 2, .int 10] ∧
+    (implEval { share := false, leak := true } 20 witnessF05).flags.scope = true ∧
+    implEval Cfg.fixed 20 witnessF05 = { result := .ok [.int 2, .int 10], flags := Flags.none } := by
+  decide
+
+/-- the hypotheses of `closure_eq_spec_partial` are satisfiable on a non-trivial program even on
+the pinned tree: closures created in a loop and called *before* the function expression is
+evaluated again — `for $i in (1,2) return (function($x){$x + $i})(10)` (test on literals) -/
+example :
+    implEval Cfg.pinned 20 (.forE 0 (.par (.cat (.lit 1) (.lit 2)))
+      (.call (.fnE 0 [1] (.add (.var 1) (.var 0))) [some (.lit 10)])) =
+      { result := .ok [.int 11, .int 12], flags := { scope := false } } := by decide
+
+/-! ## calls are repeatable -/
+
+/-- `call_repeatable`: the result of calling a function item depends on the function objects
+only — not on the token slots, not on the caller's variables dict, not on the caller's dynamic
+focus: two calls of the same item with the same arguments from *any* two states that hold the
+same function objects, both raising no flag, return the same value.  (Whatever was evaluated in
+between, and however often the call is repeated.) -/
+theorem call_repeatable (cfg : Cfg) (n : Nat) (a : Nat) (args : List Seq)
+    (c₁ c₂ : ICtx) (D₁ D₂ : Env) (st₁ st₂ : St)
+    (hheap : eraseHeap st₁.heap = eraseHeap st₂.heap)
+    (h₁ : (callFn cfg (eval cfg n) c₁ D₁ a args st₁).1 = Flags.none)
+    (h₂ : (callFn cfg (eval cfg n) c₂ D₂ a args st₂).1 = Flags.none) :
+    (callFn cfg (eval cfg n) c₁ D₁ a args st₁).2.map (·.1.1) =
+    (callFn cfg (eval cfg n) c₂ D₂ a args st₂).2.map (·.1.1) := by
+  have s₁ := callFn_sim cfg (eval cfg n) (sem n) (eval_sim cfg n) c₁ D₁ a args st₁ h₁
+  have s₂ := callFn_sim cfg (eval cfg n) (sem n) (eval_sim cfg n) c₂ D₂ a args st₂ h₂
+  rw [hheap, s₂] at s₁
+  generalize (callFn cfg (eval cfg n) c₁ D₁ a args st₁).2 = r₁ at s₁ ⊢
+  generalize (callFn cfg (eval cfg n) c₂ D₂ a args st₂).2 = r₂ at s₁ ⊢
+  cases r₁ <;> cases r₂ <;> simp [Except.map] at s₁ ⊢
+  · exact s₁.symm
+  · exact s₁.1.symm
 
 end EPV.C16
